@@ -1,0 +1,5 @@
+//go:build !verif
+
+package dir
+
+func verifPoint(string, string) {}
